@@ -39,7 +39,19 @@ func genUniverse(r *common.Rand) []enc.Name {
 var strategies = []string{"/8:6c6f63616c686f7374/8:6e6664/8:7374726174656779/8:626573742d726f757465/54:01",
 	"/8:6c6f63616c686f7374/8:6e6664/8:7374726174656779/8:6d756c746963617374/54:01"}
 
+// prefixes below /f are managed by direct FIB commands only (never by the RIB)
+var directPrefixes = []string{"/8:66", "/8:66/8:61", "/8:66/8:61/8:62", "/8:66/8:62"}
+
 func genWrite(r *common.Rand, g *common.Gen, u []enc.Name, faces []uint64) string {
+	if r.Chance(1, 4) {
+		n := common.Pick(r, directPrefixes)
+		if r.Chance(3, 5) {
+			g.Stat("op-fib-insert")
+			return fmt.Sprintf("fins,%s,%d,%d", n, common.Pick(r, []uint64{5, 6, 7, 8, 9, 10, 11}), common.Pick(r, []uint64{0, 1, 5, 10, 77}))
+		}
+		g.Stat("op-fib-remove")
+		return fmt.Sprintf("frem,%s,%d", n, common.Pick(r, []uint64{5, 6, 7, 8, 9, 10, 11}))
+	}
 	n := common.NameText(common.Pick(r, u))
 	switch k := r.Intn(10); {
 	case k < 5:
@@ -68,6 +80,9 @@ func genWrite(r *common.Rand, g *common.Gen, u []enc.Name, faces []uint64) strin
 func genRead(r *common.Rand, g *common.Gen, u []enc.Name) string {
 	// lookups of names at and below the universe prefixes
 	n := common.Pick(r, u)
+	if r.Chance(1, 4) {
+		n = common.ParseNameText(common.Pick(r, directPrefixes))
+	}
 	if r.Chance(1, 2) {
 		n = append(n.Clone(), enc.NewStringComponent(enc.TypeGenericNameComponent, common.Pick(r, []string{"a", "b", "x"})))
 	}
@@ -135,6 +150,10 @@ func gen(g *common.Gen) {
 		g.Op("lr")
 		g.Op("ls")
 		g.Op("lf")
+		for _, d := range directPrefixes {
+			g.Op("nh,%s", d)
+			g.Op("nh,%s/8:78", d)
+		}
 		for _, n := range u {
 			g.Op("nh,%s", common.NameText(n))
 			g.Op("nh,%s", common.NameText(append(n.Clone(), enc.NewStringComponent(enc.TypeGenericNameComponent, "x"))))
@@ -203,6 +222,12 @@ func doOp(op string) string {
 		return "ok"
 	case "cleanup":
 		rib.CleanUpFace(common.Atou(f[1]))
+		return "ok"
+	case "fins":
+		fib.InsertNextHopEnc(common.ParseNameText(f[1]), common.Atou(f[2]), common.Atou(f[3]))
+		return "ok"
+	case "frem":
+		fib.RemoveNextHopEnc(common.ParseNameText(f[1]), common.Atou(f[2]))
 		return "ok"
 	case "sets":
 		fib.SetStrategyEnc(common.ParseNameText(f[1]), common.ParseNameText(f[2]))
